@@ -473,6 +473,36 @@ func checkC20(ctx *core.Ctx, rep *core.Report) {
 				}
 			}
 		}
+		// (E') … and AIA hosts under a TLD that was still delegated when the certificate was issued and has been removed
+		// since (read from the table): "internal name" must mean the same thing to both copies whatever instant they consult
+		if entries, err := readTLDTable(); err == nil {
+			n := 0
+			for _, e := range entries {
+				rm, err := time.Parse("2006-01-02", e.Removal)
+				if e.Removal == "" || err != nil || rm.Before(date(2023, 10, 15)) || rm.After(time.Now().AddDate(0, 0, -2)) {
+					continue
+				}
+				issued := rm.AddDate(0, 0, -20)
+				for _, u := range []string{"http://ocsp.example." + e.Key + "/", "http://OCSP.Example." + strings.ToUpper(e.Key)} {
+					s := certgen.Spec{
+						Subject:   certgen.Name(certgen.ATV{OID: certgen.OIDC, Tag: 19, Val: "US"}, certgen.ATV{OID: certgen.OIDCN, Tag: 12, Val: "example.com"}),
+						NotBefore: issued, NotAfter: issued.AddDate(0, 6, 0),
+						Exts: []*der.Node{certgen.KeyUsage(0, 2), certgen.EKU(certgen.EKUServerAuth, certgen.EKUEmail), certgen.BasicConstraints(false, true),
+							certgen.Policies(certgen.PolDV, []int{2, 23, 140, 1, 5, 1, 1}),
+							certgen.SAN(false, certgen.GNDNS("example.com"), certgen.GNEmail("a@example.com")),
+							certgen.AIA([2]*der.Node{der.OID(certgen.AIAOCSP...), certgen.GNURI(u)})},
+					}
+					run(s.Build(), same, fmt.Sprintf("AIA %q issued %s, TLD removed %s", u, issued.Format("2006-01-02"), e.Removal))
+					rep.Inc("aia_hosts_under_since_removed_tld")
+				}
+				if n++; n >= 6 {
+					break
+				}
+			}
+			if n == 0 {
+				rep.Hole("no TLD in the table was removed after both AIA rules became effective: the since-removed-TLD case of the AIA pair is not exercised")
+			}
+		}
 		// (F) validity lengths 396..399 days ± 1 s
 		for days := 395; days <= 400; days++ {
 			for _, ds := range []int{-2, -1, 0, 1} {
